@@ -253,6 +253,24 @@ def delivery_sites(program, rep, prop, want):
             and base.func.attr == 'get' and dotted(base.func.value) == EVENTS)
         is_live = is_tbl and base is iternode
         plain_copy = is_tbl and not is_live and view == 'keys'
+        cow = False
+        if is_live and EVENTS.split('.')[-1] in getattr(program, 'cow', ()):
+            # copy-on-write: the published listener sets are never changed
+            # in place (every update of a set in the dispatcher was written
+            # as a replacement), so iterating one is iterating a snapshot
+            from dlint.walk import MUTATORS
+            inplace = [c for m_ in dispatcher_class(program).methods.values()
+                       for c in ast.walk(m_.node)
+                       if isinstance(c, ast.Call) and isinstance(
+                           c.func, ast.Attribute) and c.func.attr in MUTATORS
+                       and c.func.attr not in ('setdefault', 'clear', 'pop')
+                       and EVENTS in norm(c.func.value)
+                       and norm(c.func.value) != EVENTS
+                       and not getattr(c, '_from_cow', False)]
+            cow = not inplace
+        if cow:
+            is_live = False
+            plain_copy = True
         if 'snapshot' in want:
             if is_live:
                 rep.bad(f'{prop}.snapshot', site, loop.iter,
